@@ -537,3 +537,63 @@ def gen_nb_program(rng, path, nprocs, hints='-', fmt=None, bput=True):
     p.all('close')
     p.tags.add('nonblocking')
     return p
+
+
+XRANGE = {'byte': (-128, 127), 'ubyte': (0, 255), 'short': (-32768, 32767), 'ushort': (0, 65535), 'int': (-2**31, 2**31 - 1),
+          'uint': (0, 2**32 - 1), 'int64': (-2**63, 2**63 - 1), 'uint64': (0, 2**64 - 1)}
+MRANGE = {'schar': (-128, 127), 'uchar': (0, 255), 'short': (-32768, 32767), 'ushort': (0, 65535), 'int': (-2**31, 2**31 - 1),
+          'uint': (0, 2**32 - 1), 'long': (-2**63, 2**63 - 1), 'longlong': (-2**63, 2**63 - 1), 'ulonglong': (0, 2**64 - 1)}
+
+
+def gen_conv_program(rng, path, nprocs=1, fmt=None):
+    """C09 at the API level: out-of-range elements at random positions of a request (NC_ERANGE, fill substituted, the
+    other elements transferred), narrowing reads, text/numeric mismatch (NC_ECHAR), the CDF-1/2 byte/uchar exemption,
+    user-defined fill values.  Values stay exactly representable; floating-point variables only hold small integers."""
+    fmt = fmt or rng.choice([1, 2, 5])
+    p = Prog(path, nprocs)
+    p.all('create %s %d clobber -' % (path, fmt))
+    n = 6
+    p.all('def_dim x %d' % n)
+    xts = ['byte', 'short', 'int', 'float', 'double', 'char'] + (['ubyte', 'ushort', 'uint', 'int64', 'uint64'] if fmt == 5 else [])
+    vars_ = []
+    for i, xt in enumerate(rng.shuffle(xts)[:rng.range(3, len(xts))]):
+        v = Var('c%d' % i, xt, [('x', n)], False)
+        vars_.append(v)
+        p.all('def_var %s %s 1 x' % (v.name, xt))
+        if xt in XRANGE and rng.chance(1, 3):
+            lo, hi = XRANGE[xt]
+            p.all('def_var_fill %s 0 %d' % (v.name, rng.range(max(lo, -50), min(hi, 50))))
+    p.all('enddef')
+    for v in vars_:
+        if v.xt == 'char':
+            p.all('put vara c %s text %s 0 %d - - : %s' % (v.name, rng.choice(['c', 't']), n, ' '.join(str(rng.range(65, 90)) for _ in range(n))))
+            p.all('put vara c %s int c 0 2 - - : 1 2' % v.name)                 # NC_ECHAR
+            p.all('get vara c %s short t 0 2 - -' % v.name)                       # NC_ECHAR
+            p.all('get var c %s text c - - - -' % v.name)
+            continue
+        p.all('put vara c %s text c 0 2 - - : 65 66' % v.name)                    # NC_ECHAR on a numeric variable
+        for rep in range(rng.range(2, 4)):
+            mt = rng.choice([m for m in MRANGE])
+            mlo, mhi = MRANGE[mt]
+            vals = []
+            for k in range(n):
+                if v.xt in XRANGE:
+                    xlo, xhi = XRANGE[v.xt]
+                    cands = [xlo, xhi, xlo - 1, xhi + 1, 0, 1, -1, 100, xhi - 1, xlo + 1, 200, -200, 128, 255, 256, 70000, -70000]
+                else:
+                    cands = [0, 1, -1, 100, -100, 1000, 16777216, -16777216, 65535, 255]
+                cands = [c for c in cands if mlo <= c <= mhi]
+                vals.append(rng.choice(cands))
+            st, cnt = 0, n          # whole variable: no unwritten (unspecified) cells are read through conversions
+            p.all('put vara c %s %s %s %d %d - - : %s' % (v.name, mt, rng.choice(['c', 't', 'v2', 'r2']), st, cnt, ' '.join(map(str, vals[:cnt]))))
+            p.all('get var c %s %s c - - - -' % (v.name, NATIVE[v.xt]))
+            # narrowing / widening reads of what is stored now
+            for mt2 in rng.shuffle(list(MRANGE))[:3] + ['float', 'double']:
+                p.all('get vara c %s %s %s 0 %d - -' % (v.name, mt2, rng.choice(['c', 't', 'v2']), n))
+    p.all('close')
+    p.all('open %s r -' % path)
+    for v in vars_:
+        p.all('get var c %s %s c - - - -' % (v.name, NATIVE[v.xt]))
+    p.all('close')
+    p.tags.add('conv-fmt%d' % fmt)
+    return p
